@@ -25,16 +25,10 @@ import (
 //	disc <hello|ack|auth>             a valid discoverable-mode message of a handshake with another server
 //	junk <len> <type>                                                                             -> out=<n> hs=<n> ss=<n>
 //
-// Addresses: index i < 100 is 10.0.0.i:4000+i; index 100+i is the same IP with another port.
+// Addresses: see tnet.Addr (same IP other port: 100+i; same port other IP: 200+i; IPv6: 300+i, 400+i).
 func main() { Main(map[string]*Suite{"C19": {Gen: gen, Run: run}}) }
 
-func addr(i int) *net.UDPAddr {
-	if i >= 100 {
-		a := tnet.Addr(i - 100)
-		return &net.UDPAddr{IP: a.IP, Port: 5000 + i}
-	}
-	return tnet.Addr(i)
-}
+func addr(i int) *net.UDPAddr { return tnet.Addr(i) }
 
 func gen(g *GenCtx) {
 	r := g.R
@@ -79,15 +73,22 @@ func gen(g *GenCtx) {
 			switch k := r.Intn(10); {
 			case k < 4 || len(clis) == 0:
 				a := r.Intn(5)
+				if r.Chance(1, 3) {
+					a += 300 // an IPv6 client
+				}
 				g.Op("hello %d %d", nextID, a)
 				clis = append(clis, cli{nextID, a})
 				nextID++
-			case k < 6: // honest ack
+			case k < 5: // honest ack
 				c := Pick(r, clis)
 				g.Op("ack %d %d %d 0 x", c.id, c.addr, c.id)
 			case k < 7: // other address / other port
 				c := Pick(r, clis)
-				from := Pick(r, []int{(c.addr + 1) % 5, 100 + c.addr})
+				from := Pick(r, []int{(c.addr + 1) % 5, 100 + c.addr%100, 200 + c.addr%100})
+				if c.addr >= 300 {
+					// another IPv6 address with the same port, an IPv4 address with the same port
+					from = Pick(r, []int{400 + c.addr%100, c.addr % 100, 300 + (c.addr+1)%100%5})
+				}
 				g.Op("ack %d %d %d 0 x", c.id, from, c.id)
 			case k < 8: // cookie of another client (other key; same or other address)
 				c, d := Pick(r, clis), Pick(r, clis)
